@@ -302,8 +302,11 @@ def main(argv=None):
         ev["coverage"]["selftest"] = selftest["summary"]
         ev["coverage"]["evaluations"] += selftest["summary"].get("evaluations", 0)
 
+    known_vs = {id(v) for _, v in known_hits}
     for cfg, o in all_obs:
-        st_ = "FAIL" if o.violations else "ok"
+        st_ = "ok"
+        if o.violations:
+            st_ = "knwn" if all(id(v) in known_vs or any(v.key == kv.key for _, kv in known_hits) for v in o.violations) else "FAIL"
         print(f"[{st_:4}] {cfg:7} {o.oid:10} {o.rule:10} {o.desc}  (evals={o.evals}, matched={o.matched})")
     for k, v in known_hits:
         print(f"KNOWN-FINDING: property={prop} {k['what']} [key={k['key']}]")
